@@ -11,7 +11,8 @@ EXTENDS MonCommon
 MonInit == [ sid |-> "", called |-> <<>>, writes |-> <<>>, chunks |-> <<>>, acks |-> <<>>, grants |-> <<>>, hookB |-> <<>>, hookA |-> <<>>,
              closeReq |-> <<>>, closeCall |-> 0, closeRet |-> "none", faults |-> 0, quiesced |-> FALSE, sendFail |-> 0,
              flushes |-> 0, watchdog |-> 0 ]
-MonReset(e) == MonInit
+\* (scenario parameter p.track = short id of the upstream to judge, e.g. "u2"; default: the first upstream opened)
+MonReset(e) == IF "p" \in DOMAIN e /\ "track" \in DOMAIN e.p THEN [MonInit EXCEPT !.sid = e.p.track] ELSE MonInit
 
 \* a chunk group as <<id, pts>>; alias-form groups are resolved by the broker's own alias table ("?" if unknown)
 GroupsOf(gs) == { <<gs[k].id, gs[k].pts>> : k \in 1..Len(gs) }
